@@ -139,8 +139,9 @@ PROPS = {
         level_text="All 3^5 combinations of the five proxy transport options are pushed through the real transport.SetConfig and the three ways fabio builds transports (default, skip-verify, per-route host override) and read back field by field; the response-header timeout is additionally exercised end to end through ServeHTTP against an upstream that holds its headers until the harness releases it.",
         level_note="Dial timeout and keep-alive live inside a bound method value, so transport/transport.go is rewritten to build a recording vhook.Dialer (same fields, delegates to net.Dialer). The behavioural part uses causal barriers with a 20 s guard; it never asserts a short wall-clock bound.",
         units=[
-        unit("c19", ".", MAIN_COMMON + ["main/c19_test.go"], "^TestVerifC19", engines=["vhook"], rewrite=[{"files": ["transport/transport.go"], "opts": ["-sel", "net.Dialer=vhook.Dialer"]}]),
-    ], layers={"quick": ["c19-config", "c19-behaviour"], "thorough": ["c19-config", "c19-behaviour"]}),
+        unit("c19", ".", MAIN_COMMON + ["main/c19_test.go"], "^TestVerifC19(Config|Behaviour)", engines=["vhook"], rewrite=[{"files": ["transport/transport.go"], "opts": ["-sel", "net.Dialer=vhook.Dialer"]}]),
+        unit("c19-main", ".", MAIN_COMMON + ["main/c19_test.go", "main/c19_main_test.go"], "^TestVerifC19Main", engines=["vhook"], rewrite=[{"files": ["transport/transport.go"], "opts": ["-sel", "net.Dialer=vhook.Dialer"]}]),
+    ], layers={"quick": ["c19-config", "c19-behaviour", "c19-main"], "thorough": ["c19-config", "c19-behaviour", "c19-main"]}),
     "C15": dict(level="exploration", engine="benum",
         technique="bounded-exhaustive option x value x source enumeration (option list derived from config/load.go at check time) with DeepEqual between sources; pairwise precedence; malformed environment/properties enumeration",
         level_text="Every registered option (derived from the tree at check time, ~150) x two well-formed values x six ways of giving it must load to deeply equal configurations; every ordered pair of the four source classes with two different values must resolve to the higher one; every environment block of <=2 entries of 16 (malformed included) and every properties file of <=2 of 12 lines must load or fail without panicking; every accepted glob.cache.size/strategy/matcher combination is built into the real HTTPProxy and serves requests.",
